@@ -330,6 +330,8 @@ def witness_corpus() -> typing.List[dict]:
                      'C.1.0.dsdl': 'fold.A.1.0 a\n@sealed\n'}),
         # F-C06-CPP-GLOBAL-CLASH: gcc built-in function name as root namespace (no header needed)
         one('tolower', {'T.1.0.dsdl': 'uint8 x\n@sealed\n'}),
+        # ... and a root spelled std: its sub-namespaces are declared inside ::std and clash with library members (std::isalpha)
+        one('std', {'isalpha/std.1.0.dsdl': '@sealed\n---\n@union\nuint8 tolower\nint16[8] delta\n@extent 115 * 8\n'}),
         # F-C06-PY-MODULE-SHADOW: a LOOKUP root named like a stdlib module breaks every module generated into the same directory
         one('shd', {'T.1.0.dsdl': 'string.U.1.0 u\n@sealed\n'}, {'string': {'U.1.0.dsdl': 'uint8 v\n@sealed\n'}}),
     ]
